@@ -107,6 +107,32 @@ func nonNegAt(v ssa.Value, at *ssa.BasicBlock) bool {
 	return false
 }
 
+// trueAt: the boolean v is known to hold in block at (at lies under the true
+// branch of a test of v, or the false branch of a test of !v).
+func trueAt(v ssa.Value, at *ssa.BasicBlock) bool {
+	var check func(x ssa.Value, want bool) bool
+	check = func(x ssa.Value, want bool) bool {
+		for _, ref := range *x.Referrers() {
+			switch y := ref.(type) {
+			case *ssa.If:
+				succ := y.Block().Succs[0]
+				if !want {
+					succ = y.Block().Succs[1]
+				}
+				if len(succ.Preds) == 1 && (succ == at || succ.Dominates(at)) {
+					return true
+				}
+			case *ssa.UnOp:
+				if y.Op == token.NOT && check(y, !want) {
+					return true
+				}
+			}
+		}
+		return false
+	}
+	return check(v, true)
+}
+
 func (li *lexInv) ub(v ssa.Value, at *ssa.BasicBlock, depth int) ubound {
 	if depth > 8 {
 		return ubound{why: "too deep"}
@@ -179,6 +205,24 @@ func (li *lexInv) ub(v ssa.Value, at *ssa.BasicBlock, depth int) ubound {
 			}
 			return ubound{a: 1, k: -need, ok: true}
 		}
+		// len(before) of before, _, found := strings.Cut(input[pos:], sep): the whole rest, or — where
+		// found is established — at least len(sep) short of it
+		if b, ok := x.Call.Value.(*ssa.Builtin); ok && nm(b) == "len" && len(x.Call.Args) == 1 {
+			if ex, ok := x.Call.Args[0].(*ssa.Extract); ok && ex.Index == 0 {
+				if cut, ok := ex.Tuple.(*ssa.Call); ok && cut.Call.StaticCallee() != nil && cut.Call.StaticCallee().String() == "strings.Cut" && li.isRestSlice(cut.Call.Args[0]) {
+					need := int64(0)
+					if c, ok := cut.Call.Args[1].(*ssa.Const); ok && c.Value != nil && c.Value.Kind() == constant.String {
+						need = int64(len(constant.StringVal(c.Value)))
+					}
+					for _, ref := range *cut.Referrers() {
+						if fx, ok := ref.(*ssa.Extract); ok && fx.Index == 2 && trueAt(fx, at) {
+							return ubound{a: 1, k: -need, ok: true}
+						}
+					}
+					return ubound{a: 1, k: 0, ok: true}
+				}
+			}
+		}
 		return ubound{why: "call `" + x.String() + "` gives no bound"}
 	case *ssa.Phi:
 		var out ubound
@@ -192,7 +236,13 @@ func (li *lexInv) ub(v ssa.Value, at *ssa.BasicBlock, depth int) ubound {
 				continue
 			}
 			if b.a != out.a {
-				return ubound{why: "paths join a constant and an input-sized advance"}
+				// a constant c and an advance ≤ rest + k: both are ≤ rest + max(c, k), the rest being ≥ 0
+				k := out.k
+				if b.k > k {
+					k = b.k
+				}
+				out = ubound{a: 1, k: k, ok: true}
+				continue
 			}
 			if b.k > out.k {
 				out.k = b.k
@@ -643,7 +693,7 @@ func c08CommentSearchStart(w *World, r *Report, rule string) {
 		for _, b := range f.Blocks {
 			for _, in := range b.Instrs {
 				c, ok := in.(*ssa.Call)
-				if !ok || c.Call.StaticCallee() == nil || c.Call.StaticCallee().String() != "strings.Index" {
+				if !ok || c.Call.StaticCallee() == nil || (c.Call.StaticCallee().String() != "strings.Index" && c.Call.StaticCallee().String() != "strings.Cut") {
 					continue
 				}
 				k, ok := c.Call.Args[1].(*ssa.Const)
